@@ -190,12 +190,14 @@ public:
                 rpoller.add(e.fd, mod | EPOLLIN | EPOLLRDHUP, {.ptr = e.data});
             if (ret < 0) return ret;
         }
-        DEFER(if (ret < 0) rpoller.rm(e.fd, 0, {}));
+        // roll back only what this call has added: the reader poller may hold
+        // another waiter's registration for the same fd
+        DEFER(if (ret < 0 && (e.interests & EVENT_READ)) rpoller.rm(e.fd, 0, {}));
         if (e.interests & EVENT_WRITE) {
             ret = wpoller.add(e.fd, mod | EPOLLOUT, {.ptr = e.data});
             if (ret < 0) return ret;
         }
-        DEFER(if (ret < 0) wpoller.rm(e.fd, 0, {}));
+        DEFER(if (ret < 0 && (e.interests & EVENT_WRITE)) wpoller.rm(e.fd, 0, {}));
         if (e.interests & EVENT_ERROR) {
             ret = epoller.add(e.fd, mod | EPOLLERR, {.ptr = e.data});
             if (ret < 0) return ret;
